@@ -5,6 +5,8 @@ import (
 	"fmt"
 	"os"
 	"strconv"
+	"strings"
+	"sync"
 )
 
 func Main(args []string) int {
@@ -85,45 +87,58 @@ func debugFunc(args []string) int {
 		for _, nn := range fr.Notes {
 			fmt.Println("   note:", nn)
 		}
-		coverSat := map[string]bool{}
-		coverAll := map[string]bool{}
-		defer func() {
-			for n := range coverAll {
-				if !coverSat[n] {
-					fmt.Printf("  [VACUOUS] %s\n", n)
-				}
+		groups := map[string][]*Instance{}
+		var names []string
+		for _, in := range fr.Insts {
+			if _, ok := groups[in.Name]; !ok {
+				names = append(names, in.Name)
 			}
-		}()
-		for i, in := range fr.Insts {
-			if !in.Cover && in.Goal == "true" {
-				fmt.Printf("  [trivial] %s\n", in.Name)
-				continue
-			}
-			r := Solve(BuildQuery(fr, in), 10, false, in.Cover)
-			tag := r.Status
-			if in.Cover {
-				tag = "cover:" + r.Status
-				coverAll[in.Name] = true
-				if r.Status != "unsat" {
-					coverSat[in.Name] = true
-				}
-				continue
-			}
-			fmt.Printf("  [%s %dms %s] %s  -- %s\n", tag, r.Ms, r.Solver, in.Name, in.Clause)
-			if (r.Status != "unsat" && !in.Cover) || (in.Cover && r.Status != "sat") {
-				fmt.Printf("      path: %v\n      goal: %s\n", in.Path, truncate(in.Goal, 400))
-				if r.Status == "sat" {
-					for k, v := range modelInputs(r.Model) {
-						fmt.Printf("      %s = %s\n", k, v)
+			groups[in.Name] = append(groups[in.Name], in)
+		}
+		type out struct {
+			name string
+			text string
+		}
+		res := make([]string, len(names))
+		var wg sync.WaitGroup
+		sem := make(chan struct{}, 16)
+		for i, n := range names {
+			wg.Add(1)
+			sem <- struct{}{}
+			go func(i int, n string) {
+				defer wg.Done()
+				defer func() { <-sem }()
+				ins := groups[n]
+				status, failing, r := SolveGroup(fr, ins, 10, false)
+				var sb strings.Builder
+				if ins[0].Cover {
+					if status == "unsat" {
+						fmt.Fprintf(&sb, "  [VACUOUS] %s\n", n)
 					}
-				} else {
-					fmt.Printf("      raw: %s\n", truncate(r.Raw, 300))
+					res[i] = sb.String()
+					return
 				}
-				if *dump != "" {
-					os.MkdirAll(*dump, 0o755)
-					os.WriteFile(fmt.Sprintf("%s/q%d.smt2", *dump, i), []byte(BuildQuery(fr, in)+"(check-sat)\n(get-model)\n"), 0o644)
+				fmt.Fprintf(&sb, "  [%s %dms %s x%d] %s  -- %s\n", status, r.Ms, r.Solver, len(ins), n, ins[0].Clause)
+				if status != "unsat" && failing != nil {
+					fmt.Fprintf(&sb, "      path: %v\n      goal: %s\n", failing.Path, truncate(failing.Goal, 400))
+					if status == "sat" {
+						for k, v := range modelInputs(r.Model) {
+							fmt.Fprintf(&sb, "      %s = %s\n", k, v)
+						}
+					} else {
+						fmt.Fprintf(&sb, "      raw: %s\n", truncate(r.Raw, 300))
+					}
+					if *dump != "" {
+						os.MkdirAll(*dump, 0o755)
+						os.WriteFile(fmt.Sprintf("%s/q%d.smt2", *dump, i), []byte(BuildQuery(fr, failing)+"(check-sat)\n(get-model)\n"), 0o644)
+					}
 				}
-			}
+				res[i] = sb.String()
+			}(i, n)
+		}
+		wg.Wait()
+		for _, r := range res {
+			fmt.Print(r)
 		}
 	}
 	for _, m := range contractErrors {
